@@ -76,6 +76,12 @@ def matmul(
         raise ValueError(ERROR_MESSAGE % 0)
     if not x2.shape:
         raise ValueError(ERROR_MESSAGE % 1)
+    # narrow integers are multiplied in the type their sum accumulates in: the
+    # products must not wrap around before they are added up
+    dtype = numpy.result_type(x1.dtype, x2.dtype)
+    if dtype.kind in "iu" and "dtype" not in kwargs:
+        dtype = numpy.sum(numpy.empty(0, dtype=dtype)).dtype
+        x1, x2 = x1.astype(dtype), x2.astype(dtype)
     x1 = numpoly.reshape(x1, x1.shape + (1,))
     x2 = numpoly.reshape(x2, x2.shape[:-2] + (1,) + x2.shape[-2:])
     x1, x2 = numpoly.broadcast_arrays(x1, x2)
